@@ -1,6 +1,7 @@
 """Shared specification vocabulary for feature trees (DESIGN section 3).  Written from the property
 statements, not from the code.  Executable natively; translated to SMT by pyvc."""
 from contracts.api import spec, implies, iff, same, seq_eq
+from flamapy.metamodels.fm_metamodel.models import FeatureType
 
 MAND = 1
 OPT = 2
@@ -69,9 +70,46 @@ def wf():
     return True
 
 
+def height(f):
+    """length of the longest downward path from f (ghost rank; termination measure)"""
+    return 0 if not f.relations else 1 + max(height(c) for r in f.relations for c in r.children)
+
+
 def wf_feature(f):
     return True
 
 
 def wf_rel(r):
     return True
+
+
+# ---------------------------------------------------------------- listings
+@spec
+def children(f: 'Feature') -> 'list[Feature]':
+    return [c for r in f.relations for c in r.children]
+
+
+@spec
+def rels(f: 'Feature') -> 'list[Relation]':
+    """pre-order listing of the relations of the sub-tree of f"""
+    return [x for r in f.relations for x in [r] + [y for c in r.children for y in rels(c)]]
+
+
+@spec
+def feats(m: 'FeatureModel') -> 'list[Feature]':
+    return [m.root] + [c for r in rels(m.root) for c in r.children]
+
+
+def owner_rel(f):
+    """the relation of f.parent that has f among its children (unique in a well-formed tree)"""
+    for r in f.parent.relations:
+        for c in r.children:
+            if c is f:
+                return r
+    return None
+
+
+@spec
+def feature_class(f: 'Feature') -> int:
+    """class of the relation a feature is a child of (0 for the root)"""
+    return 0 if f.parent is None else rclass(owner_rel(f))
